@@ -41,3 +41,56 @@ pub fn m_set_get() {
     let g = db.get_value(k.clone()).unwrap();
     if accepted { vsym::check(g.value == "w"); } else { vsym::check(g.value == v); vsym::check(g.version == ver + 1); }
 }
+use crate::process_request::process_request;
+use futures::channel::mpsc::{channel, Receiver, Sender};
+use vstd::sync::Arc;
+pub fn mk_dbs() -> Arc<Databases> {
+    let (s1, _r1): (Sender<String>, Receiver<String>) = channel(100);
+    let (s2, _r2): (Sender<String>, Receiver<String>) = channel(100);
+    let dbs = Arc::new(Databases::new(String::from("user"), String::from("pwd"), String::from("n1"), String::from("n1"), s1, s2, vstd::collections::HashMap::new(), 1u128, true));
+    dbs.node_state.swap(ClusterRole::Primary as usize, vstd::sync::atomic::Ordering::Relaxed);
+    std::mem::forget(_r1); std::mem::forget(_r2);
+    dbs
+}
+pub fn m_kv_step() {
+    let dbs = mk_dbs();
+    let (mut client, mut rx) = Client::new_empty_and_receiver();
+    let r = process_request("auth user pwd", &dbs, &mut client);
+    let r = process_request("create-db d tok", &dbs, &mut client);
+    let (mut c2, mut rx2) = Client::new_empty_and_receiver();
+    let r = process_request("use-db d tok", &dbs, &mut c2);
+    vsym::check(match r { Response::Ok {} => true, _ => false });
+    let v = vsym::any_str();
+    vsym::assume(v.len() <= 6 && !v.contains("\n") && !v.contains(";"));
+    let cmd = [ "set k ", &v ].concat();
+    let r = process_request(&cmd, &dbs, &mut c2);
+    let r = process_request("get k", &dbs, &mut c2);
+    match r { Response::Value { key: _, value, version: _ } => vsym::check(value == v), _ => vsym::check(false) }
+}
+pub fn m_dbg() -> (Response, Response, Response, Vec<String>) {
+    let dbs = mk_dbs();
+    let (mut client, mut rx) = Client::new_empty_and_receiver();
+    let r1 = process_request("auth user pwd", &dbs, &mut client);
+    let r2 = process_request("create-db d tok", &dbs, &mut client);
+    let (mut c2, mut rx2) = Client::new_empty_and_receiver();
+    let r3 = process_request("use-db d tok", &dbs, &mut c2);
+    let mut msgs = Vec::new();
+    while let Ok(Some(m)) = rx.try_next() { msgs.push(m); }
+    (r1, r2, r3, msgs)
+}
+pub fn m_dbg2() -> bool {
+    let dbs = mk_dbs();
+    let (mut client, mut rx) = Client::new_empty_and_receiver();
+    let r1 = process_request("auth user pwd", &dbs, &mut client);
+    let r2 = process_request("create-db d tok", &dbs, &mut client);
+    let m = dbs.map.read().unwrap();
+    let db = m.get(&String::from("d")).unwrap();
+    is_valid_token(&String::from("tok"), db)
+}
+pub fn m_dbg3() -> Arc<Databases> {
+    let dbs = mk_dbs();
+    let (mut client, mut rx) = Client::new_empty_and_receiver();
+    let r1 = process_request("auth user pwd", &dbs, &mut client);
+    let r2 = process_request("create-db d tok", &dbs, &mut client);
+    dbs
+}
